@@ -924,7 +924,7 @@ class C01:
         pert_budget = sh["perturb"]
         pool = []
         whole = 0
-        for fn in files:
+        for fn in harness.budgeted(files, rec):
             if budget <= 0:
                 break
             src, stmts = statements_of(fn)
@@ -982,7 +982,7 @@ class C01:
                 if len(rec.samples.get("perturb", [])) < 2 and len(t) < 200:
                     rec.sample({"src": t, "via": name}, "perturb")
         # generator
-        for s in gen_sources(rng, sh["gen"]):
+        for s in harness.budgeted(gen_sources(rng, sh["gen"]), rec):
             if s in seen:
                 continue
             seen.add(s)
